@@ -6,7 +6,7 @@ From RS Require Import Tactics Frame ListFacts Spec Silent Lifecycle Queue Queue
 Lemma accepted_grows_step s l a x :
   get_actor s a = Some x -> exists y d, get_actor (sys_step s l) a = Some y /\ a_accepted y = a_accepted x ++ d.
 Proof.
-  intros Hx. destruct (step_shape s l) as [Hl H1 H2|a0 x0 f fo evs Hl Hx0 HL E|a0 x0 f fo evs Hx0 HD E|E].
+  intros Hx. destruct (step_shape s l) as [Hl H1 H2|a0 x0 f fo evs Hl Hx0 HL E|a0 x0 f fo evs Hl Hx0 HD E|E].
   - destruct (H1 a x Hx) as (y & Hy & _ & d & A & _). eauto.
   - rewrite E, NF_get_actor. destruct (Nat.eqb_spec a a0) as [->|Hne].
     + rewrite Hx0 in *. injection Hx as <-. cbn. exists (f x0), []. rewrite app_nil_r.
